@@ -189,7 +189,6 @@ func (ms *midstream) run(f fault, idx int, scratch string) error {
 			} else {
 				ms.violate("remote-error:query:remote-handle", fmt.Sprintf("`%s` succeeds under direct access (%d values) but the remote handle reports %v", src, len(qL.Vals), qR.Err), f)
 			}
-			continue
 		}
 		// what was delivered must be a prefix of what the channel yields
 		for _, q := range []*qres{qL, qR} {
